@@ -28,6 +28,57 @@ def fresh_name(base):
     return f"{base}!{next(_fresh_counter)}"
 
 
+_BAD_PAT = None
+
+
+def valid_pattern(t):
+    """z3 rejects patterns containing logical connectives / ite / equality"""
+    bad = {z3.Z3_OP_ITE, z3.Z3_OP_NOT, z3.Z3_OP_OR, z3.Z3_OP_AND, z3.Z3_OP_EQ, z3.Z3_OP_IMPLIES, z3.Z3_OP_DISTINCT,
+           z3.Z3_OP_TRUE, z3.Z3_OP_FALSE, z3.Z3_OP_XOR}
+    stack = [t]
+    has_app = False
+    while stack:
+        x = stack.pop()
+        if z3.is_quantifier(x):
+            return False
+        if z3.is_app(x):
+            if x.decl().kind() in bad:
+                return False
+            if x.num_args() > 0:
+                has_app = True
+            stack.extend(x.children())
+    return has_app
+
+
+def forall(vars_, body, pats=None):
+    if not isinstance(vars_, (list, tuple)):
+        vars_ = [vars_]
+    if pats:
+        good = [p for p in pats if valid_pattern(p) and all(_mentions_var(p, v) for v in vars_)]
+        if good:
+            try:
+                return z3.ForAll(list(vars_), body, patterns=good)
+            except z3.Z3Exception:
+                pass
+    return z3.ForAll(list(vars_), body)
+
+
+def _mentions_var(t, v):
+    vid = v.get_id()
+    stack = [t]
+    seen = set()
+    while stack:
+        x = stack.pop()
+        if x.get_id() in seen:
+            continue
+        seen.add(x.get_id())
+        if x.get_id() == vid:
+            return True
+        if z3.is_app(x):
+            stack.extend(x.children())
+    return False
+
+
 # ------------------------------------------------------------------------------------------------
 # types
 # ------------------------------------------------------------------------------------------------
@@ -177,11 +228,10 @@ class TDict(T):
     def wf(self, term):
         k = z3.Const(fresh_name('wfk'), self.k.sort())
         dom, val = self.dom(term), self.val(term)
-        out = [z3.ForAll([k], z3.Implies(z3.Not(dom[k]), val[k] == self.v.default()),
-                         patterns=[val[k]])]
+        out = [forall([k], z3.Implies(z3.Not(dom[k]), val[k] == self.v.default()), [val[k]])]
         sub = self.v.wf(val[k])
         if sub:
-            out.append(z3.ForAll([k], z3.And(*sub), patterns=[val[k]]))
+            out.append(forall([k], z3.And(*sub), [val[k]]))
         return out
 
 
@@ -231,7 +281,7 @@ class TList(T):
         i = z3.Int(fresh_name('wfi'))
         sub = self.e.wf(self.arr(term)[i])
         if sub:
-            out.append(z3.ForAll([i], z3.And(*sub), patterns=[self.arr(term)[i]]))
+            out.append(forall([i], z3.And(*sub), [self.arr(term)[i]]))
         return out
 
 
